@@ -76,7 +76,8 @@ func FuzzPathOps(f *testing.F) {
 	f.Fuzz(func(t *testing.T, n1 string, i1 int, n2 string, i2 int, n3 string, i3 int, flags uint8) {
 		c := PathCase{PathSep: flags&1 != 0, NumKeys: flags&2 != 0}
 		if flags&4 != 0 {
-			c.MaxIdx = int64(flags>>3) + 1
+			c.MaxIdx = int64(flags >> 3)
+			c.MaxIdx0 = c.MaxIdx == 0
 		}
 		clamp := func(i int) int {
 			if i > 1000000 {
